@@ -1890,6 +1890,7 @@ func (r *Repository) ResolveRevision(in plumbing.Revision) (*plumbing.Hash, erro
 			var tryHashes []plumbing.Hash
 
 			tryHashes = append(tryHashes, r.resolveHashPrefix(string(revisionRef))...)
+			nPrefix := len(tryHashes)
 
 			ref, err := expandRef(r.Storer, plumbing.ReferenceName(revisionRef))
 			if err == nil {
@@ -1902,16 +1903,16 @@ func (r *Repository) ResolveRevision(in plumbing.Revision) (*plumbing.Hash, erro
 			// don't bother to detect the ambiguity either, just return in the
 			// priority that git would.
 			gotOne := false
-			for _, hash := range tryHashes {
-				commitObj, err := r.CommitObject(hash)
-				if err == nil {
-					commit = commitObj
-					gotOne = true
+			for i, hash := range tryHashes {
+				// An ID wins over a reference of the same name.
+				if gotOne && i >= nPrefix {
 					break
 				}
 
-				tagObj, err := r.TagObject(hash)
-				if err == nil {
+				var found *object.Commit
+				if commitObj, err := r.CommitObject(hash); err == nil {
+					found = commitObj
+				} else if tagObj, err := r.TagObject(hash); err == nil {
 					// If the tag target lookup fails here, this most likely
 					// represents some sort of repo corruption, so let the
 					// error bubble up.
@@ -1919,9 +1920,19 @@ func (r *Repository) ResolveRevision(in plumbing.Revision) (*plumbing.Hash, erro
 					if err != nil {
 						return &plumbing.ZeroHash, err
 					}
-					commit = tagCommit
+					found = tagCommit
+				}
+				if found == nil {
+					continue
+				}
+
+				if !gotOne {
+					commit = found
 					gotOne = true
-					break
+				} else if found.Hash != commit.Hash {
+					// Like git, refuse an abbreviated ID that names more
+					// than one commit instead of picking one of them.
+					return &plumbing.ZeroHash, fmt.Errorf("%w: short object ID %s is ambiguous", plumbing.ErrReferenceNotFound, revisionRef)
 				}
 			}
 
@@ -2004,6 +2015,9 @@ func (r *Repository) ResolveRevision(in plumbing.Revision) (*plumbing.Hash, erro
 	return &commit.Hash, nil
 }
 
+// minimumAbbreviation is the shortest abbreviated object ID git accepts.
+const minimumAbbreviation = 4
+
 // resolveHashPrefix returns a list of potential hashes that the given string
 // is a prefix of. It quietly swallows errors, returning nil.
 func (r *Repository) resolveHashPrefix(hashStr string) []plumbing.Hash {
@@ -2011,7 +2025,8 @@ func (r *Repository) resolveHashPrefix(hashStr string) []plumbing.Hash {
 	// plumbing.NewHash forces args into a full 20 byte hash, which isn't suitable
 	// for partial hashes since they will become zero-filled.
 
-	if hashStr == "" {
+	// git does not take fewer than four hex digits for an object ID.
+	if len(hashStr) < minimumAbbreviation {
 		return nil
 	}
 	if len(hashStr) == plumbing.ZeroHash.HexSize() {
